@@ -16,7 +16,9 @@ RULE = ("(i) port generator alone: 1..450 ranges (singletons, adjacent, overlapp
         "refused port list; distinct by case seed; (iv) end to end: the sx binary in a private network namespace (veth pair, "
         "packet socket as wire log): tcp subnet x ports with exclusion, tcp pairs file without -p, udp address file x ports, tcp "
         "address list on stdin x 3 ports, tcp /31 x 400+ port ranges (3 chunks), arp, icmp; socks over local addresses with a listener as the log; table-driven: every packet command (arp, icmp, udp, tcp, "
-        "tcp syn/fin/null/xmas, tcp --flags) on a /30, once normally and once pinned to ONE cpu (taskset: runtime.NumCPU() == 1)")
+        "tcp syn/fin/null/xmas, tcp --flags) on a /30, once normally and once pinned to ONE cpu (taskset: runtime.NumCPU() == 1); every port command once more with the ports "
+        "from --ports-file only; socks / elastic / elastic https / docker against local listeners with HTTP_PROXY, HTTPS_PROXY, ALL_PROXY "
+        "and DOCKER_HOST pointing at a decoy")
 
 CODES = {1: "port generator: error differs from the model", 2: "port generator: port sequence differs from the model",
          3: "port generator: channel not closed",
@@ -144,6 +146,10 @@ def spec_on_impl(o):
 def judge_e2e(o):
     if o.get("skipped"):
         return None
+    if o.get("set"):
+        # application scans against listeners: every target contacted, nothing else, never the decoy of the environment
+        from checks import c02
+        return c02.judge_e2e(o)
     fb = bytes.fromhex(o.get("frames") or "")
     got = collections.Counter(fb[i:i + 6] for i in range(0, len(fb), 6))
     want = collections.Counter(key(a, p) for a, p in o["want"])
@@ -232,7 +238,7 @@ def run(ctx):
                 report(ctx, o, why)
     # end to end: the real engine start functions (chunk loop included) with a wire log
     if rows or not ctx.broken:
-        for idx, o in enumerate(run_e2e(ctx, 26 if quick else 90)):
+        for idx, o in enumerate(run_e2e(ctx, 37 if quick else 110)):
             cls = "e2e:" + o["class"]
             if o.get("skipped"):
                 ctx.skipped.append("e2e %s: %s" % (o["class"], o["skipped"][:200]))
